@@ -1,6 +1,7 @@
 import CstModel.Props.C02
 import CstModel.Props.C03
 import CstModel.Props.Gen
+import CstModel.Props.GenToken
 open Cst.C02
 #print axioms history_canonical
 #print axioms observed_range
@@ -13,3 +14,4 @@ open Cst.C02
 #print axioms Cst.C03.forwarders_elem_ok
 #print axioms Cst.C03.forwarders_resolved_ok
 #print axioms Cst.Gen.tok_text_range
+#print axioms Cst.Gen.nd_text_range
